@@ -21,6 +21,7 @@ import (
 	"hash/fnv"
 	"os"
 	"path/filepath"
+	"regexp"
 	"runtime/debug"
 	"sort"
 	"strconv"
@@ -110,6 +111,11 @@ type prop struct {
 	sigs     map[string]func(raw json.RawMessage) bool
 	required []string
 }
+
+var (
+	reAddr      = regexp.MustCompile(`0x[0-9a-fA-F]+\??`)
+	reGoroutine = regexp.MustCompile(`goroutine \d+`)
+)
 
 var (
 	props    []*prop
@@ -334,6 +340,17 @@ func trimStack(b []byte) string {
 	if i := strings.Index(s, "panic("); i >= 0 {
 		s = s[i:]
 	}
+	// keep only the frames of the code under test and of the property itself:
+	// the callers (pb, rapid, testing) differ between rapid's phases
+	for _, cut := range []string{"verif/harness/internal/pb.", "pgregory.net/rapid.", "testing.tRunner"} {
+		if i := strings.Index(s, cut); i >= 0 {
+			s = s[:i]
+		}
+	}
+	// rapid only shrinks when the failure message is reproducible byte for
+	// byte, so addresses and goroutine numbers must not appear in it
+	s = reAddr.ReplaceAllString(s, "0x?")
+	s = reGoroutine.ReplaceAllString(s, "goroutine ?")
 	return trunc(s, 3000)
 }
 
